@@ -165,10 +165,13 @@ class Exec:
 
     def final_env(self, s: St) -> Env:
         vars_ = {**self.entry_env.vars, "trace": VSeq("list[int]", s.trace)}
+        for m in self.c.mutates:
+            if m in s.vars:
+                vars_[m] = s.vars[m]  # the list as the function leaves it; old(m) is the list on entry
         return Env(vars_, s.heap, old=self.entry_env)
 
     def check_return(self, s: St, v: V):
-        s = self.ghost_calls(self.c.calls, s)
+        s = self.ghost_calls(self.c.calls, s, extra=None if isinstance(v, VNone) else {"result": v})
         self.cur = s
         self.ret_paths += 1
         self.obls.append(Obl(f"{self.c.qualname}/cover:return#{self.ret_paths}@L{self.line}", self.line, s.pc, z3.BoolVal(True), "cover"))
@@ -354,6 +357,12 @@ class Exec:
                     s4 = self.implicit_exc(s3, "IndexError", z3.Or(idx.t >= n, idx.t < -n), "store-index")
                     i = z3.If(idx.t < 0, n + idx.t, idx.t)
                     newt = z3.Concat(z3.SubSeq(base.t, 0, i), z3.Unit(coerce(v, base.ek).t), z3.SubSeq(base.t, i + 1, n - i - 1))
+                    # theorems of the sequence theory about the updated list, spelled out element-wise
+                    facts = [z3.Length(newt) == n, newt[i] == coerce(v, base.ek).t]
+                    if not self.ctx.expand_quant:
+                        j = z3.Int(f"j!upd{next_id()}")
+                        facts.append(z3.ForAll([j], z3.Implies(z3.And(0 <= j, j < n, j != i), newt[j] == base.t[j])))
+                    s4 = s4.assume(*facts)
                     outs.extend(self.write_back(tgt.value, VSeq(base.kind, newt, base.fresh), s4, base))
             return outs
         raise Unsupported(f"assignment target {type(tgt).__name__}")
@@ -361,7 +370,7 @@ class Exec:
     def write_back(self, target_expr, newv: VSeq, st: St, oldv: VSeq):
         """Mutation of a list denoted by target_expr (Name or self.field)."""
         if isinstance(target_expr, ast.Name):
-            if target_expr.id not in self.fresh_locals and not target_expr.id.startswith("_acc") and st.vars.get("__ctor__") is None:
+            if target_expr.id not in self.fresh_locals and not target_expr.id.startswith("_acc") and st.vars.get("__ctor__") is None and target_expr.id not in self.c.mutates:
                 self.oblige("mutates-non-fresh-list", z3.BoolVal(False), st=st, note=f"list `{target_expr.id}` is not freshly allocated on every path (frame: it may alias an argument)")
             s2 = st.fork()
             k = self.local_kinds.get(target_expr.id)
@@ -708,6 +717,10 @@ class Exec:
                             trace = True
                         cc = api.CONTRACTS.get(f.id)
                         if cc:
+                            for m in cc.mutates:
+                                idx = list(cc.params).index(m)
+                                if idx < len(n.args) and isinstance(n.args[idx], ast.Name):
+                                    names.add(n.args[idx].id)
                             for m in cc.modifies:
                                 if m == "trace":
                                     trace = True
@@ -1321,6 +1334,11 @@ class Exec:
             info = api.CLASSES.get(c)
             if info:
                 todo.extend(info.bases)
+        # a method that only one declared subclass has (TextNode.with_text called on a value of static
+        # kind Node): dispatch there; the call site is obliged to show the receiver is of that class
+        subs = [i.name for i in api.CLASSES.values() if f"{i.name}.{meth}" in api.CONTRACTS and self.ctx._is_subclass(i.name, cname) and i.name != cname]
+        if len(subs) == 1:
+            return api.CONTRACTS[f"{subs[0]}.{meth}"]
         return None
 
     def ev_Call(self, e, st):
@@ -1369,7 +1387,7 @@ class Exec:
                 out = []
                 for vals, s in self.ev_list(list(e.args), st):
                     for kvals, s2 in self.ev_list(list(kw.values()), s):
-                        out.extend(self.call_contract(api.CONTRACTS[name], vals, dict(zip(kw.keys(), kvals)), s2))
+                        out.extend(self.call_contract(api.CONTRACTS[name], vals, dict(zip(kw.keys(), kvals)), s2, arg_asts=list(e.args)))
                 return out
             raise Unsupported(f"call of {name} (no contract; A10) at line {self.line}")
         if isinstance(f, ast.Attribute) and f.attr == "__class__" and isinstance(f.value, ast.Name) and isinstance(st.vars.get(f.value.id), VObj):
@@ -1437,6 +1455,10 @@ class Exec:
                     cc = self.find_contract(recv.kind, f.attr)
                     if cc is None:
                         raise Unsupported(f"call of {recv.kind}.{f.attr} (no contract; A10) at line {self.line}")
+                    owner = cc.qualname.split(".")[0]
+                    if owner != recv.kind and self.ctx._is_subclass(owner, recv.kind):
+                        self.oblige(f"receiver-class:{cc.qualname}", self.isinstance_of(recv, owner), st=s, note=f"method of subclass {owner} called on a {recv.kind}")
+                        recv = VObj(owner, recv.t)
                     for vals, s2 in self.ev_list(list(e.args), s):
                         for kvals, s3 in self.ev_list(list(kw.values()), s2):
                             out.extend(self.call_contract(cc, [recv] + vals, dict(zip(kw.keys(), kvals)), s3))
@@ -1570,7 +1592,7 @@ class Exec:
                 raise Unsupported(f"argument {n} of {cc.qualname}: {ex}")
         return env
 
-    def call_contract(self, cc: api.Contract, vals, kwvals, st: St):
+    def call_contract(self, cc: api.Contract, vals, kwvals, st: St, arg_asts=None):
         self.cur = st
         # ghost lemma / axiom instances placed right before calls of this callee (calls_func)
         st = self.ghost_calls(self.c.calls_func.get(cc.qualname, []), st)
@@ -1628,7 +1650,25 @@ class Exec:
             rv = fresh(rk, "ret") if rk != "none" else VNone()
             if isinstance(rv, VSeq):
                 rv.fresh = bool(case.get("fresh_result"))
-            post_env = Env({**params, "trace": VSeq("list[int]", s3.trace)}, s3.heap, old=pre_env)
+            post_params = dict(params)
+            mutated_locals = []
+            for m in cc.mutates:
+                idx = list(cc.params).index(m)
+                a_ast = arg_asts[idx] if (arg_asts is not None and idx < len(arg_asts)) else None
+                if not isinstance(a_ast, ast.Name):
+                    raise Unsupported(f"{cc.qualname} mutates its parameter {m}: the argument must be a local list variable")
+                if a_ast.id not in self.fresh_locals and a_ast.id not in self.c.mutates:
+                    self.oblige(f"frame:list:{a_ast.id}:via:{cc.qualname}", z3.BoolVal(False), st=s3, note=f"callee mutates the list `{a_ast.id}`, which is not freshly allocated here (it may alias an argument)")
+                nv = fresh(cc.params[m], m + "_after")
+                if isinstance(nv, VSeq) and isinstance(params[m], VSeq):
+                    nv.fresh = params[m].fresh
+                post_params[m] = nv
+                mutated_locals.append((a_ast.id, nv))
+            if mutated_locals:
+                s3 = s3.fork()
+                for ln, nv in mutated_locals:
+                    s3.vars[ln] = nv
+            post_env = Env({**post_params, "trace": VSeq("list[int]", s3.trace)}, s3.heap, old=pre_env)
             assumed = []
             clauses = case.get("ensures", [])
             if cc.virtual and not (params.get("self") is not None and getattr(params.get("self"), "kind", None) != cc.qualname.split(".")[0]):
@@ -1687,21 +1727,21 @@ class Exec:
                         self.pending.append((s4, payload))
         return out
 
-    def ghost_calls(self, calls, st: St):
+    def ghost_calls(self, calls, st: St, extra=None):
         """ground instances of separately proved lemmas (like a lemma call in Dafny): the
         arguments are expressions over the current locals and parameters"""
         if not calls:
             return st
         from .lemmas import lemma_instance
 
-        vars_ = {**self.entry_env.vars, **{k: v for k, v in st.vars.items() if not k.startswith("__")}}
+        vars_ = {**self.entry_env.vars, **{k: v for k, v in st.vars.items() if not k.startswith("__")}, **(extra or {})}
         env = Env(vars_, st.heap, old=self.entry_env)
         facts = []
         for name, args in calls:
             try:
                 vals = [Pure(self.ctx, env).ev(_parse_spec(a)) for a in args]
-            except Unsupported:
-                continue  # a local of that name does not exist on this path
+            except (Unsupported, KindError, AttributeError):
+                continue  # a local of that name does not exist (or has another shape) on this path
             facts.append(lemma_instance(self.ctx, name, vals))
         return st.assume(*facts)
 
